@@ -363,3 +363,7 @@ Definition msg_group (key : list Z) : option (list Z) :=
   end.
 
 Fixpoint sumz (l : list Z) : Z := match l with [] => 0 | x :: r => x + sumz r end.
+
+(* acceptConsumerGroup, from what the two regular expressions answer for the group:
+   a_set / d_set = the allowlist / denylist is configured; a_m / d_m = it matches the group *)
+Definition reader_accept (a_set a_m d_set d_m : bool) : bool := (negb a_set || a_m) && negb (d_set && d_m).
